@@ -304,8 +304,12 @@ func childRecover(plan *crashkit.Plan) int {
 			if have, _ := n.Chain.HaveBlock(&blocks[op.Block].Hash); !have {
 				doOp(n, blocks, op)
 			}
-		} else if op.Kind == "inv" || op.Kind == "rec" {
-			doOp(n, blocks, op)
+		} else if (op.Kind == "inv" || op.Kind == "rec") && i >= w.RedoFrom {
+			// an invalidation / reconsideration is repeated only when its effects may have been lost: one acknowledged
+			// before the last completed commit is durable (and, on a pruned node, could not be repeated later anyway:
+			// undoing old history needs block data that is gone)
+			err := doOp(n, blocks, op)
+			rec.Op("R %d %s %d (repeat) err=%v", i, op.Kind, op.Block, err)
 		}
 	}
 	for i := start; i < len(w.Ops); i++ {
